@@ -36,15 +36,21 @@ LEVEL = "model_checking"
 _FREE_RUNNING = {"on": False}
 
 
-def _mk(setup=(), conns=()):
+def _mk(setup=(), conns=(), options=None, pre_sql=()):
+    """options: non-default FakeSnow options; pre_sql: statements run first on a connection without context"""
+
     def make_env():
         import fakesnow.instance as inst
 
         sched.install_threading_shim(on=not _FREE_RUNNING["on"])
-        fs = inst.FakeSnow()
+        fs = inst.FakeSnow(**(options or {}))
         if not _FREE_RUNNING["on"]:
             sched.coop_locks(fs)
         env = {"fs": fs, "conns": {}}
+        if pre_sql:
+            c0 = fs.connect().cursor()
+            for s in pre_sql:
+                c0.execute(s)
         if setup:
             c = fs.connect(database="db1", schema="s1")
             cur = c.cursor()
@@ -72,6 +78,21 @@ def s_exec(key, sql, fetch=True, pre=None):
         cur = c.cursor()
         cur.execute(sql)
         return (cur.fetchall() if fetch else None, cur.rowcount)
+
+    return step
+
+
+def s_exec_catch(key, sql):
+    """a statement that is expected to fail: the step's result is the kind of error, the thread carries on"""
+
+    def step(env, loc):
+        c = loc.get(key) or env["conns"][key]
+        cur = c.cursor()
+        try:
+            cur.execute(sql)
+            return ("ok", cur.fetchall())
+        except Exception as e:  # noqa: BLE001
+            return ("failed", type(e).__name__)
 
     return step
 
@@ -158,6 +179,8 @@ HARNESSES = {
     # remembers about "already set up" is in play), the schema is new / both schemas are new
     "H1f": (_mk(conns=("w",)), [[s_connect("db1", "s9", "c"), s_ctx("c")], [s_connect("db1", "s9", "c"), s_ctx("c")]]),
     "H1g": (_mk(conns=("w",)), [[s_connect("db1", "s8", "c"), s_ctx("c")], [s_connect("db1", "s9", "c"), s_ctx("c")]]),
+    # non-default options: the database is never created by connect (it exists), the schema is
+    "H1i": (_mk(conns=("w",), options={"create_database_on_connect": False}, pre_sql=["create database db1"]), [[s_connect("db1", "s9", "c"), s_ctx("c")], [s_connect("db1", "s9", "c"), s_ctx("c")]]),
     "H1h": (_mk(conns=("w",)), [[s_connect("db1", "s1", "c"), s_ctx("c")], [s_connect("db2", "s1", "c"), s_ctx("c")]]),
     "H2": (
         _mk(setup=["create table t (x int)"], conns=("w1", "w2", "r")),
@@ -197,12 +220,21 @@ HARNESSES = {
             [s_exec("b", "update acc set n = n + 100 where id = 1"), s_exec("b", "merge into kv using (select 2 as k, 'b' as v) s on kv.k = s.k when matched then update set kv.v = s.v when not matched then insert (k, v) values (s.k, s.v)")],
         ],
     ),
+    # a multi-step statement that FAILS in a later step with an error of the engine (NOT NULL violated by the INSERT
+    # after the UPDATE step succeeded), next to another session writing the row its first step touched
+    "H9": (
+        _mk(setup=["create table tn (k int, v varchar not null)", "insert into tn values (1, 'old')", "create table sn (k int, v varchar)", "insert into sn values (1, 'new'), (2, NULL)"], conns=("a", "b")),
+        [
+            [s_exec_catch("a", "merge into tn using sn on tn.k = sn.k when matched then update set tn.v = sn.v when not matched then insert (k, v) values (sn.k, sn.v)"), s_exec("a", "select k, v from tn order by k")],
+            [s_exec("b", "update tn set v = 'b' where k = 1"), s_exec("b", "select k, v from tn order by k")],
+        ],
+    ),
     "H4": (
         _mk(setup=["create table t (x int)"], conns=("w",)),
         [[s_connect("db9", "s9", "c"), s_ctx("c")], [s_exec("w", "insert into t values (7)"), s_exec("w", "select x from t order by x")]],
     ),
 }
-QUICK = ["H1a", "H1b", "H1c", "H1e", "H1f", "H2", "H3a", "H3b", "H4", "H6", "H7", "H8"]
+QUICK = ["H1a", "H1b", "H1c", "H1e", "H1f", "H1i", "H9", "H2", "H3a", "H3b", "H4", "H6", "H7", "H8"]
 BOUNDS = {"quick": {h: 1 for h in HARNESSES}, "thorough": {h: 2 for h in HARNESSES}}
 BOUNDS["thorough"].update({"H1a": 3, "H2": 3})
 
@@ -249,6 +281,7 @@ INVARIANTS = {
     "H1c": _inv_h1([("db1", "s1"), ("db2", "s2")]),
     "H1e": _inv_h1([("db1", "s1"), ("DB1", "S1")]),
     "H1f": _inv_h1([("db1", "s9"), ("db1", "s9")]),
+    "H1i": _inv_h1([("db1", "s9"), ("db1", "s9")]),
     "H1g": _inv_h1([("db1", "s8"), ("db1", "s9")]),
     "H1h": _inv_h1([("db1", "s1"), ("db2", "s1")]),
     "H4": _inv_h1([("db9", "s9")]),
@@ -314,12 +347,44 @@ def serial_outcomes(hname):
         dh, _ = final_digest(env)
         key = (tuple(tuple(r) if r[0] != "ok" else ("ok", r[1]) for r in res), dh)
         outs[repr(key)] = order
+        _SERIAL_RAW.setdefault(hname, []).append((order, [list(r) for r in res]))
     _SERIAL[hname] = outs
     return outs
 
 
+_SERIAL_RAW = {}
+
+
+def serial_baseline(hname, acc: core.Acc, tier):
+    """The serial orders are the reference of the differential oracle, so they are judged on their own first: every
+    script is written so that each of its steps succeeds when the sessions take turns (statements that are meant to fail
+    are caught inside their step and return the kind of error). A step raising in a SERIAL order is a fault that needs
+    no race - and one the differential oracle alone would accept as 'also happens serially'."""
+    serial_outcomes(hname)
+    acc.count("evaluations")
+    for order, res in _SERIAL_RAW.get(hname, []):
+        for t, r in enumerate(res):
+            if r[0] != "ok":
+                acc.violation("C19.serial_baseline", f"{hname}:thread{t}:{r[1].split('.')[-1]}", {"order": list(order), "results": res}, {"harness": hname, "serial_order": list(order)})
+    if hname == "H9":
+        for order, res in _SERIAL_RAW.get(hname, []):
+            if res[0][0] == "ok" and res[0][1] and res[0][1][0] != ("failed", "ConstraintException"):
+                acc.violation("C19.serial_baseline", "H9:failing_merge_outcome", {"order": list(order), "results": res}, {"harness": hname, "serial_order": list(order)})
+    return None
+
+
 # ---- explanation of deviations (class keys) -------------------------------------------------------------------------------
-def explain(hname, results, serial_keys):
+def _h9_overlap(hname, labels):
+    if hname != "H9" or not labels:
+        return ""
+    a_calls = [i for i, l in enumerate(labels) if l.startswith("0:") and "SELECT K, V FROM TN" not in l and not l.startswith("0:start")]
+    b_upd = next((i for i, l in enumerate(labels) if l.startswith("1:UPDATE TN")), None)
+    if not a_calls or b_upd is None:
+        return ""
+    return ",update_ran=" + ("during_the_failing_merge" if a_calls[0] < b_upd < a_calls[-1] else ("after_it_returned" if b_upd > a_calls[-1] else "before_it_started"))
+
+
+def explain(hname, results, serial_keys, labels=None):
     """name the deviation from what is observed (never from fakesnow internals)"""
     parts = []
     for t, r in enumerate(results):
@@ -328,7 +393,7 @@ def explain(hname, results, serial_keys):
         elif r[0] == "deadlock":
             parts.append(f"thread{t}:deadlock")
     if parts:
-        return ",".join(parts)
+        return ",".join(parts) + _h9_overlap(hname, labels)
     if hname in ("H3a", "H3c"):
         # each reader step is one statement (atomic), so a deviation is a half-done statement of the writer
         steps = dict(results[1][1])
@@ -354,6 +419,19 @@ def explain(hname, results, serial_keys):
         comment = got[0][1] if got else "<table not listed>"
         if comment not in ("old", "from A", "from B"):
             return f"reader:comment_neither_old_nor_new:{'null' if comment is None else 'other'}"
+    overlap = ""
+    if hname == "H9" and labels:
+        # did the other session's UPDATE run while the failing MERGE was being carried out (between its first and its
+        # last engine call), or only after the MERGE had returned its error? (read off the schedule, not off fakesnow)
+        a_calls = [i for i, l in enumerate(labels) if l.startswith("0:") and "SELECT K, V FROM TN" not in l and not l.startswith("0:start")]
+        b_upd = next((i for i, l in enumerate(labels) if l.startswith("1:UPDATE TN")), None)
+        if a_calls and b_upd is not None:
+            overlap = ",update_ran=" + ("during_the_failing_merge" if a_calls[0] < b_upd < a_calls[-1] else ("after_it_returned" if b_upd > a_calls[-1] else "before_it_started"))
+    if hname == "H9" and not any(r[0] in ("exc", "deadlock") for r in results):
+        # the MERGE is expected to fail (NOT NULL); what differs from every serial order is HOW it fails
+        a = results[0][1][0] if results[0][0] == "ok" else None
+        if a and a[0] == "failed" and a[1] != "ConstraintException":
+            return f"failing_merge_fails_differently:{a[1]}" + overlap
     if hname == "H3b":
         rows = results[1][1][-1][0]
         before = [(1, "old1"), (2, "old2")]
@@ -388,7 +466,7 @@ def run_one(item, acc: core.Acc, tier):
     if x["deadlock"]:
         acc.violation("C19.no_deadlock", f"{hname}", {"results": results}, rp)
     elif key not in serial:
-        cls = f"{hname}:{explain(hname, results, serial)}"
+        cls = f"{hname}:{explain(hname, results, serial, rp['labels'])}"
         acc.violation("C19.serializable", cls, {"results": results, "preemptions": npre, "serial_outcomes": len(serial)}, rp)
     inv = INVARIANTS.get(hname)
     if inv is not None:
@@ -483,6 +561,7 @@ def run(ctx: core.Ctx):
         "DuckDB engine calls are atomic at this granularity; races inside DuckDB are not reached",
     ]
     total = {}
+    ctx.pmap(serial_baseline, list(names), recheck=False)
     frontier = [(h, [], bounds[h]) for h in names]
     rounds = 0
     while frontier:
